@@ -301,6 +301,17 @@ class Lab:
         while not q.empty():
             nm.do()
 
+    def restart(self):
+        """the process goes away (nothing is flushed) and a new engine is started over the same storage and accounts:
+        the providers' in-memory cursor position is lost (a fresh process starts at 'now'); the accounts' event logs persist"""
+        self.stop_engine()
+        for p in self.p:
+            if not p.connected:
+                p.connect(p._test_creds)
+            p._cursor = p._latest_cursor
+        self.generation = getattr(self, "generation", 0) + 1
+        return self.start_engine()
+
     def stop_engine(self):
         """drop the engine as a process exit would: nothing is flushed"""
         try:
